@@ -26,6 +26,9 @@ func init() {
 type sqlQueryChecker struct {
 	astwalk.WalkHandler
 	ctx *linter.CheckerContext
+
+	// visiting holds the named types typeHasExecMethod is currently inside of.
+	visiting map[*types.Named]bool
 }
 
 func (c *sqlQueryChecker) VisitStmt(stmt ast.Stmt) {
@@ -141,6 +144,15 @@ func (c *sqlQueryChecker) typeHasExecMethod(typ types.Type) bool {
 	case *types.Pointer:
 		return c.typeHasExecMethod(typ.Elem())
 	case *types.Named:
+		// Recursive types like `type T struct{ *T }` would be visited forever.
+		if c.visiting[typ] {
+			return false
+		}
+		if c.visiting == nil {
+			c.visiting = make(map[*types.Named]bool)
+		}
+		c.visiting[typ] = true
+		defer delete(c.visiting, typ)
 		for i := 0; i < typ.NumMethods(); i++ {
 			if c.funcIsExec(typ.Method(i)) {
 				return true
